@@ -15,5 +15,12 @@ mkdir -p "$T"
 FLOUNDER_SRC="$S/repo/src" VERIF_TARGET="$T" VERIF_OUT="$S" "$(dirname "$(readlink -f "$0")")/../check" "$ID" "$TIER" > "$S/out.txt" 2>&1
 rc=$?
 grep -E '^(VIOLATION|  violated|INCONCLUSIVE|HELD|KNOWN)' "$S/out.txt" | head -${MUT_LINES:-3}
-echo "mutant $(basename "$PATCH") on $ID $TIER: exit=$rc"
+rrc=-
+if [ "$rc" = 1 ] && [ -n "${REPLAY:-}" ]; then
+  # the replay file written for the first violation must reproduce it against the same tree
+  R=$(grep -m1 '^VIOLATION' "$S/out.txt" | sed 's/.*replay=//')
+  FLOUNDER_SRC="$S/repo/src" VERIF_TARGET="$T" VERIF_OUT="$S" "$(dirname "$(readlink -f "$0")")/../check" "$ID" "$TIER" --replay "$R" > "$S/replay.txt" 2>&1
+  rrc=$?
+fi
+echo "mutant $(basename "$PATCH") on $ID $TIER: exit=$rc replay_exit=$rrc"
 exit $rc
